@@ -5,7 +5,7 @@
 From Coq Require Import ZArith String List Bool Permutation.
 Import ListNotations.
 Require Import MS.Base.GoInt MS.Base.Res MS.Base.F32 MS.Base.F64 MS.Model.Uda MS.Model.Candle
-               MS.Proofs.Uda_facts MS.Proofs.Candle_map MS.Proofs.Candle_ohlc.
+               MS.Proofs.Uda_facts MS.Proofs.Candle_map MS.Proofs.Candle_ohlc MS.Generated.Src_agg.
 Local Open Scope Z_scope.
 
 (** Rows are the extracted input rows (timestamp, open, high, low, close — a tick has all four equal to
@@ -22,7 +22,7 @@ Print Assumptions C21_run.
 (** one candle per window that contains input rows, in time order, and each candle is the fold of
     AddCandle over exactly its window's rows in input order — for all row lists, all timeframes, any split
     of the input into Accum calls (the per-call candle cache of GetCandle is shown irrelevant) *)
-Theorem C21_partition : forall cd nacc rowss,
+Theorem C21_partition : forall cd nacc rowss, idem cd ->
   let rows := concat rowss in
   let out := sort_by_key (accum_all cd nacc rowss) in
   incr (map fst out)
@@ -35,7 +35,7 @@ Print Assumptions C21_partition.
     close = close price of a latest row, high / low = greatest / least element (NaN-free columns),
     count = number of rows, sums = float64 left folds in input order.
     Guard [rows_ok]: no timestamp equals Go's zero time.Time (0001-01-01 00:00 UTC), < 2^63 rows. *)
-Theorem C21_candle : forall cd nacc rows w, rows_ok rows ->
+Theorem C21_candle : forall cd nacc rows w, idem cd -> rows_ok rows ->
   (exists r, In r rows /\ truncate cd (b_t r) = w) ->
   candle_spec (window_candle cd nacc w rows) w (window_rows cd w rows)
   /\ c_sums (window_candle cd nacc w rows) = sums_of nacc (window_rows cd w rows).
@@ -44,25 +44,47 @@ Print Assumptions C21_candle.
 
 (** order independence: for distinct timestamps and NaN-free prices a permutation of the input leaves
     open and close unchanged and high and low equal as numbers (Go's ==) *)
-Theorem C21_order_independent : forall cd nacc rows rows' w, Permutation rows rows' -> rows_ok rows ->
+Theorem C21_order_independent : forall cd nacc rows rows' w, idem cd -> Permutation rows rows' -> rows_ok rows ->
   NoDup (map b_t rows) -> f32_nonan (map b_h rows) = true -> f32_nonan (map b_l rows) = true ->
   (exists r, In r rows /\ truncate cd (b_t r) = w) ->
   ohlc_eq (window_candle cd nacc w rows) (window_candle cd nacc w rows').
 Proof. exact ohlc_order_independent. Qed.
 Print Assumptions C21_order_independent.
 
-(** the window arithmetic C21 relies on (C31 for Sec/Min/H/D in UTC): a timestamp is within its own window;
-    window starts are fixed points *)
-Theorem C21_within_own_window : forall cd t, is_within cd t (truncate cd t) = true.
+(** the window arithmetic C21 relies on.  [idem cd] (window starts are fixed points of Truncate) is the only
+    assumption on the timeframe and the system timezone; it is proved for Sec/Min/H/D in every zone at a fixed UTC
+    offset (UTC included), and with it a timestamp is within its own window (C31's fact) *)
+Theorem C21_zone_idem : forall off mult suffix, idem (cd_of_zone off mult suffix).
+Proof. exact idem_zone. Qed.
+Print Assumptions C21_zone_idem.
+
+Theorem C21_within_own_window : forall cd t, idem cd -> is_within cd t (truncate cd t) = true.
 Proof. exact is_within_truncate. Qed.
 Print Assumptions C21_within_own_window.
 
-Theorem C21_truncate_idem : forall cd t, truncate cd (truncate cd t) = truncate cd t.
-Proof. exact truncate_idem. Qed.
-Print Assumptions C21_truncate_idem.
+(** the windows are as long as the timeframe says — for Sec/Min/H and for "1D" *)
+Theorem C21_window_length : forall off mult suffix,
+  0 < cd_dur (cd_of_zone off mult suffix) ->
+  (String.eqb suffix "D" = true -> cd_dur (cd_of_zone off mult suffix) = Src_agg.agg_Day) ->
+  window_len_ok (cd_of_zone off mult suffix).
+Proof. exact window_len_zone. Qed.
+Print Assumptions C21_window_length.
+
+(** … but not for "<n>D" with n > 1: Truncate / IsWithin ignore the multiplier, a 2D candler yields one candle
+    per calendar day ("one candle per window" of the given timeframe fails) *)
+Definition C21_window_full : Prop := forall mult suffix,
+  0 < cd_dur (cd_of mult suffix) -> window_len_ok (cd_of mult suffix).
+
+Theorem C21_window_refuted : ~ C21_window_full.
+Proof.
+  intros H. specialize (H 2 "D"%string eq_refl (1600000000 * NS) (1600000000 * NS + 86400 * NS)).
+  vm_compute in H. assert (X : 1600041600000000000 = 1599955200000000000) by (apply H; split; [discriminate | reflexivity]).
+  discriminate X.
+Qed.
+Print Assumptions C21_window_refuted.
 
 (** ---- the statement without the zero-time guard is refuted by the faithful model ---- *)
-Definition C21_full : Prop := forall cd nacc rows w, Z.of_nat (List.length rows) <= ity_max I64 ->
+Definition C21_full : Prop := forall cd nacc rows w, idem cd -> Z.of_nat (List.length rows) <= ity_max I64 ->
   (exists r, In r rows /\ truncate cd (b_t r) = w) ->
   candle_spec (window_candle cd nacc w rows) w (window_rows cd w rows).
 
@@ -77,7 +99,7 @@ Proof.
   assert (L : Z.of_nat (List.length C21_witness) <= ity_max I64) by (vm_compute; discriminate).
   assert (E : exists r, In r C21_witness /\ truncate (cd_of 1 "Min"%string) (b_t r) = zero_time).
   { exists (C21_tick zero_time 10). split; [left; reflexivity | vm_compute; reflexivity]. }
-  destruct (cs_open _ _ _ (H L E)) as (r & [I M] & T & _).
+  destruct (cs_open _ _ _ (H (idem_zone 0 1 "Min"%string) L E)) as (r & [I M] & T & _).
   assert (I0 : In (C21_tick zero_time 10) (window_rows (cd_of 1 "Min"%string) zero_time C21_witness)).
   { apply filter_In. split; [left; reflexivity | vm_compute; reflexivity]. }
   specialize (M _ I0). rewrite <- T in M. vm_compute in M. apply M. reflexivity.
@@ -85,7 +107,7 @@ Qed.
 Print Assumptions C21_refuted.
 
 (** ---- order independence for ALL row sets with distinct timestamps is refuted by NaN prices ---- *)
-Definition C21_order_full : Prop := forall cd nacc rows rows' w, Permutation rows rows' -> rows_ok rows ->
+Definition C21_order_full : Prop := forall cd nacc rows rows' w, idem cd -> Permutation rows rows' -> rows_ok rows ->
   NoDup (map b_t rows) -> (exists r, In r rows /\ truncate cd (b_t r) = w) ->
   f32_eq (c_h (window_candle cd nacc w rows)) (c_h (window_candle cd nacc w rows')) = true.
 
@@ -97,7 +119,7 @@ Theorem C21_order_refuted : ~ C21_order_full.
 Proof.
   intros H.
   set (a := C21_nan_tick (1599999970 * NS)). set (b := C21_tick (1599999980 * NS) 1).
-  specialize (H (cd_of 1 "Min"%string) 0%nat [a; b] [b; a] (1599999960 * NS) (perm_swap b a [])).
+  specialize (H (cd_of 1 "Min"%string) 0%nat [a; b] [b; a] (1599999960 * NS) (idem_zone 0 1 "Min"%string) (perm_swap b a [])).
   assert (OK : rows_ok [a; b]).
   { split; [|vm_compute; discriminate]. intros r [E|[E|[]]]; subst r; cbn [a b b_t C21_tick C21_nan_tick]; vm_compute; discriminate. }
   assert (ND : NoDup (map b_t [a; b])).
